@@ -83,11 +83,11 @@ func runC18(res *Result, tier string, seed uint64) {
 			continue
 		}
 		r := recs[i]
-		r = g.node("telemetry", []string{"zeta.key", "alpha.key", "mid.key", "alpha.key"}, nil, r)
+		r = g.node("telemetry", []string{"zeta.key", "alpha.key", "mid.key", "alpha.key", "trunc.key\xc3"}, nil, r) // one key is not valid UTF-8
 		r = g.node("tags", []string{"zz", "v1", "aa", "v2", "mm", "v3"}, []int{0, 1, 2}, r)
 		r = g.node("hint", []string{"hint b"}, nil, g.node("hint", []string{"hint a"}, nil, g.node("hint", []string{"hint b"}, nil, r)))
 		r = g.node("detail", []string{"detail z"}, nil, g.node("detail", []string{"detail a"}, nil, r))
-		r = g.node("issuelink", []string{"https://z", "zz"}, nil, g.node("issuelink", []string{"https://a", "aa"}, nil, r))
+		r = g.node("issuelink", []string{"https://z", "zz\x80"}, nil, g.node("issuelink", []string{"https://a", "aa"}, nil, r))
 		r = g.node("safedetails", []string{"z %s"}, nil, r)
 		a := "arg"
 		r.Arg = &a
